@@ -146,7 +146,7 @@ class UniExpr(ExprMixin):
         return "%s %s" % (opnames[self.op], _operandrepr(self.operand))
 
     def __str__(self):
-        return "%s %s" % (opnames[self.op], self.operand)
+        return repr(self)
 
     def __call__(self, obj, *args):
         operand = self.operand(obj) if callable(self.operand) else self.operand
@@ -164,7 +164,7 @@ class BinExpr(ExprMixin):
         return "(%s %s %s)" % (_operandrepr(self.lhs), opnames[self.op], _operandrepr(self.rhs))
 
     def __str__(self):
-        return "(%s %s %s)" % (self.lhs, opnames[self.op], self.rhs)
+        return repr(self)
 
     def __call__(self, obj, *args):
         lhs = self.lhs(obj) if callable(self.lhs) else self.lhs
@@ -243,10 +243,7 @@ class FuncPath(ExprMixin):
             return "%s_(%r)" % (self.__func.__name__, self.__operand)
 
     def __str__(self):
-        if self.__operand is None:
-            return "%s_" % (self.__func.__name__)
-        else:
-            return "%s_(%s)" % (self.__func.__name__, self.__operand)
+        return repr(self)
 
     def __call__(self, operand, *args):
         if self.__operand is None:
